@@ -69,13 +69,13 @@ P('C04', ['tick.leader', 'tick.not-leader', 'msg.next_node_idx', 'msg.append_ent
   'Cross-node finality ("never differs on any node") is ' + A_RAFT + '.',
   lemmas=['FRAME-C04'], assumptions=[A_RAFT, 'R_AE'])
 
-P('C06', ['loadDumpFile', 'msg.append_entries', 'tryLogCompaction', 'serializer.serialize', 'serializer.checkSerializing',
+P('C06', ['init.startup', 'loadDumpFile', 'msg.append_entries', 'tryLogCompaction', 'serializer.serialize', 'serializer.checkSerializing',
           'serializer.setTransmissionData.file', 'ResizableFile.write', 'FileJournal.add', 'FileJournal.clear', 'FileJournal.deleteEntriesFrom',
           'FileJournal.deleteEntriesTo', 'FileJournal.reopen'],
   'Start-up/compaction side of durability as contracts: the follower acknowledges only after the journal append (O6.1, ghost event '
   'order on the real handler); loading a dump on start-up keeps every journal entry after the dump position (O6.3).',
-  'What the journal file holds after a kill is C08 (FileJournal contracts, crash conditions). Start-up region of __init__ and the '
-  'compaction ordering O6.4 are covered by the C08/C09 units where built; journal-without-dump (D9) is a known finding.',
+  'What the journal file holds after a kill is C08 (FileJournal contracts, crash conditions). The start-up region of __init__ is unit init.startup; '
+  'journal-without-dump (D9) and the non-kill-safe head drop (D8) are known findings.',
   modules=SO_MODS + ['contracts.ser_units', 'contracts.journal_units'],
   assumptions=['T-RENAME, T-MMAP (via C08)', 'kill = process kill, not power loss'])
 
@@ -141,7 +141,7 @@ LEMMAS['L-CHUNK'] = _su.lemma_chunk
 PROPS['C09'] = None
 P('C09', ['loadDumpFile', 'sendAppendEntries', 'msg.append_entries', 'serializer.getTransmissionData', 'serializer.setTransmissionData',
           'serializer.setTransmissionData.none', 'serializer.setTransmissionData.file', 'serializer.serialize', 'serializer.checkSerializing',
-          'tryLogCompaction'],
+          'serializer.scratch-files', 'tryLogCompaction'],
   'Snapshot load restores attributes, journal head, applied index, member set and the name table for the restored version (O9.4); the '
   'leader resets nextIndex to the entry after the snapshot point and sends snapshots only to followers behind the journal start '
   '(O9.6); a partial snapshot chunk changes neither journal nor commit index.',
@@ -282,17 +282,24 @@ P('C13', ['tcp.parse', 'tcp.send', 'tcp.processSend', 'tcp.processRead', 'tcp.re
   lemmas=['L-STREAM'], modules=['contracts.tcp_units'], trusted=['T-SOCKET', 'T-ZLIB', 'T-PICKLE', 'T-STRUCT'],
   assumptions=['no-crypto', 'A-RANGE: frame length < 2^31', 'messages are not None (None means "no message" in the parse loop)'])
 
-P('C14', ['transport.incoming', 'transport.dropNode', 'transport.shouldConnect', 'transport.send', 'transport.onDisconnected', 'tcp.disconnect'],
+P('C14', ['transport.incoming', 'transport.dropNode', 'transport.shouldConnect', 'transport.send', 'transport.onDisconnected', 'tcp.disconnect',
+          'tcp.connectionTimeout', 'tcp.trySendBuffer'],
   'Only the safety clauses a per-call contract can state: identity (a message is only ever delivered as coming from the member whose '
   'address the connection\'s first message named; unknown or removed addresses are disconnected and bound to nothing, O14.1), '
   'membership filter after dropNode (O14.2), single dialer per pair (O14.3), truthful send (O14.4), one disconnect notification '
-  'and at most one reconnect attempt per disconnect (O14.5).',
+  'and at most one reconnect attempt per disconnect (O14.5), and the read timeout in its safety form: every flush attempt '
+  'first evaluates it, and a connection silent for longer than the timeout is disconnected by that evaluation.',
   'NOT decided: "re-establishes exactly one working connection within a bounded time after any fault pattern" and "notifications '
   'match the ability to exchange messages" over fault histories - liveness / fault-sequence clauses outside this technique (same reason '
   'as C05). Node universe of 3 member addresses in these units; address order is modelled as a strict total order.',
   modules=['contracts.tr_units', 'contracts.tcp_units'], trusted=['T-SOCKET'], assumptions=['no-crypto'])
 
-NOT_BUILT.update({
-    'C07': 'term and vote are not persisted by the code at all (syncobj.py __init__ assigns 0/None, .meta holds only the commit index): the '
-           'single obligation fails by construction; recorded as known finding D10 in DESIGN.md/known_findings.json rather than claimed as a check',
-})
+P('C07', ['msg.request_vote', 'msg.append_entries', 'tick.election', 'init.startup'],
+  'The in-memory half is proved: a vote is granted only for the current term and only once per term (R2), the vote changes only from None '
+  'or on a new term (R1), the term never decreases in any handler. The durable half - the start-up region of __init__ must restore a term '
+  'not below the acknowledged one and the vote of that term - is stated as two obligations of unit init.startup.',
+  'Both durable obligations FAIL on the unchanged tree by construction (term and vote are never persisted): recorded as known finding D10; '
+  'the check therefore establishes only that no *other* clause of C07 is broken. Cross-node consequence (one leader per term across restarts) is ' + A_RAFT + '.',
+  assumptions=[A_RAFT])
+
+NOT_BUILT.update({})
